@@ -627,7 +627,8 @@ def registrations(b, stmts):
                 out[key] = l
     dv = q(I.IViewDerivers)
     if dv is not None:
-        l = [custom[('deriver', n)] for n, _ in dv.sorted() if ('deriver', n) in custom]
+        # derivers without constraints of their own nest newest-outermost: list them in registration order
+        l = list(reversed([custom[('deriver', n)] for n, _ in dv.sorted() if ('deriver', n) in custom]))
         if l:
             out['derivers'] = l
     # views: which view statements are registered, in which order inside their slot
@@ -642,9 +643,13 @@ def registrations(b, stmts):
         if sid is not None:
             derived[id(i.get('derived_callable'))] = sid
     slots = {}
+    real = reg.__dict__['adapters']._real if isinstance(reg.__dict__.get('adapters'), _AdaptersProxy) else reg.adapters
     for r in Registry.registeredAdapters(reg):
         if r.provided in (I.IView, I.ISecuredView, I.IMultiView):
             f = r.factory
+            # Components keeps a registration record even after adapters.unregister(): ask the adapter registry
+            if real.registered(r.required, r.provided, r.name) is not f:
+                continue
             if r.provided is I.IMultiView:
                 members = [derived.get(id(v), -1) for (_, v, _) in f.views]
                 members += [derived.get(id(v), -1) for acc in f.accepts for (_, v, _) in f.media_views[acc]]
